@@ -26,6 +26,10 @@ FILES = {
     "strg3.py": "def check_stage(stage):\n    if stage in (\"staging\", \"production\"):  # thailint: ignore[stringly-typed]\n        return 2\n    return 3\n",
     "hushed.py": "def fee(q):\n    return q * 6113  # thailint: ignore[magic-numbers]\n",
     "bare.py": "def toll(q):\n    return q * 7219\n",
+    # a non-transitive star of similar constant names (hub first / last matters to a union-find) in three files
+    "const_a.py": "API_TIMEOUT = 30\n",
+    "const_b.py": "TIMEOUT_API = 30\n",
+    "const_c.py": "API_TIMEOUTS = 30\n",
     "scanner.py": "import regex as rx\n\n\ndef scan(items):\n    out = []\n    for it in items:\n        if rx.search('a+', it):\n            out.append(it)\n    return out\n",
 }
 VARIANTS = {
@@ -171,9 +175,12 @@ def h_order(ctx):
     d = _mk("memory")
     try:
         perms = list(itertools.permutations(range(4)))
-        pi = ctx.choice("perm_of_first_four", len(perms))
+        group = ctx.pick("permuted_group", ("duplicates-and-string-sets", "similar-constants"))
+        pi = ctx.choice("perm_of_group", len(perms))
         tail_rev = ctx.flag("rest_reversed")
-        names = [ORDER[i] for i in perms[pi]] + (ORDER[4:][::-1] if tail_rev else ORDER[4:])
+        head = ORDER[:4] if group == "duplicates-and-string-sets" else ["const_a.py", "const_b.py", "const_c.py", "magic.py"]
+        rest = [n for n in ORDER if n not in head]
+        names = [head[i] for i in perms[pi]] + (rest[::-1] if tail_rev else rest)
         ctx.note("order", names)
         ign.clear_ignore_parser_cache()
         got = Counter(_key(v, d) for v in Orchestrator(project_root=d).lint_files([d / "src" / n for n in names]))
@@ -261,7 +268,7 @@ def obligations(tier):
            timeout=900 if tier == "quick" else 3400, workers=14, must_cover=("same",)),
         Ob(name="K2-file-order-and-repetition", engine="pathex", harness=h_order,
            functions=["Orchestrator.lint_files", "cross-file rules' storage queries (ORDER BY / dedup)", "per-analyzer state carried from file to file"],
-           bounds="forked: all 24 orders of the first four files x rest reversed or not (7 files incl. cross-file duplicates, repeated string sets and a pair of files whose findings depend on analyzer state)",
+           bounds="forked: all 24 orders of four files (the duplicate / string-set files, or three files with similar constant names + one) x rest reversed or not (all project files incl. cross-file duplicates, repeated string sets and a pair of files whose findings depend on analyzer state)",
            timeout=600, workers=14, must_cover=("same",)),
         Ob(name="K3-no-side-effects", engine="pathex", harness=h_side_effects,
            functions=["every linter command (in-process CLI)", "DRYCache (memory / tempfile)", "Orchestrator.lint_directory / lint_directory_parallel"],
